@@ -161,6 +161,9 @@ def aggregate(ctx, chk):
             chk.unknown("R16.6", "%s envelope not a per-point update: %s" % (nm, show(t, 160)))
             continue
         base, j, val = t.args
+        if not (isinstance(j, Sym) and "loopvar" in j.tags):
+            chk.unknown("R16.6", "%s envelope is not written point by point (index %s): the vectorised form is outside the rule's vocabulary" % (nm, show(j, 60)))
+            continue
         init = App("getitem", (DY, Tup([Const(Ellipsis), Const(col)])))
         own = App("getitem", (App("fresh", (init,)), j))
         xj = App("getitem", (X, j))
